@@ -2,7 +2,7 @@
 # seedrun.sh Cxx [tier] [check ids...] : apply /verif/seeded/Cxx/patch.diff to /repo, run the checks, undo.
 # Never commits to /repo. Serialised through a lock.
 id=$1; tier=${2:-quick}; shift; shift
-checks=${@:-$id}
+checks=${@:-${id%%-*}}
 exec 9>/dev/shm/seedrun.lock; flock 9
 cd /verif
 if [ -n "$(git -C /repo status --porcelain)" ]; then echo "/repo not clean"; exit 3; fi
